@@ -977,3 +977,28 @@ pub fn replay(reg: &Registry, input: &str, out: &mut Out) -> (usize, usize) {
     }
     (done, skipped)
 }
+
+// ---------------------------------------------------------------------------
+// beyond the listed properties: the derive macros VariantsAsConstants / EnumIter
+pub mod derive_fx {
+    #[allow(non_camel_case_types)]
+    #[derive(Copy, Clone, Debug, PartialEq, qty_macros::VariantsAsConstants, qty_macros::EnumIter)]
+    pub enum Shade {
+        MultiCamelCase,
+        snake_case,
+        simple,
+        ALL_UPPER,
+        Ab,
+    }
+}
+
+pub fn derive_events(out: &mut Out) {
+    use derive_fx::*;
+    let declared = ["MultiCamelCase", "snake_case", "simple", "ALL_UPPER", "Ab"];
+    let iter: Vec<String> = Shade::iter().map(|v| format!("{:?}", v)).collect();
+    let consts: Vec<Value> = [("MULTI_CAMEL_CASE", MULTI_CAMEL_CASE), ("SNAKE_CASE", SNAKE_CASE), ("SIMPLE", SIMPLE), ("ALL_UPPER", ALL_UPPER), ("AB", AB)]
+        .iter()
+        .map(|(n, v)| json!({"c": txt(n), "id": txt(&format!("{:?}", v))}))
+        .collect();
+    out.ev("Derive", json!({"variants": declared.iter().map(|d| txt(d)).collect::<Vec<_>>(), "iter": iter.iter().map(|d| txt(d)).collect::<Vec<_>>(), "consts": consts}));
+}
